@@ -33,10 +33,10 @@ CORRESPONDENCE_ONLY = ["zeros_like / ones_like / + / ==", "value dtypes"]
 ASSUMPTIONS = ["keys handed to the constructor are distinct (the library's documented precondition)"]
 
 
-def _history(rng, keys, absent, n_ops, lo=-9):
+def _history(rng, keys, absent, n_ops, lo=-9, lo_hi=None):
     ops = []
     for _ in range(n_ops):
-        t = rng.choice(["getvec", "getvec", "get1", "setscalar", "seteach", "fill", "contains", "items", "hs_contains", "zeros_like", "ones_like", "add_self", "eq_self", "eq_other", "add_perm", "eq_big", "like_set"])
+        t = rng.choice(["getvec", "getvec", "get1", "setscalar", "seteach", "fill", "contains", "items", "hs_contains", "zeros_like", "ones_like", "add_self", "eq_self", "eq_other", "add_perm", "eq_big", "like_set", "hs_contains1", "iadd_num", "iadd_table"])
         if t == "getvec":
             ops.append({"t": t, "ks": htgen.queries(rng, keys, absent)})
         elif t == "get1":
@@ -50,6 +50,12 @@ def _history(rng, keys, absent, n_ops, lo=-9):
             ops.append({"t": t, "ks": ks, "x": rng.randint(lo, 99)})
             if rng.random() < 0.5:
                 ops.append({"t": "items"})
+        elif t == "hs_contains1":
+            ops.append({"t": t, "k": rng.choice(keys + [a for a in absent[:6] if lo_hi is None or lo_hi[0] <= a <= lo_hi[1]][:3])})   # one key as a Python integer (representable in the key dtype)
+        elif t == "iadd_num":
+            ops.append({"t": t, "x": rng.randint(0, 9)})                                       # t += number
+        elif t == "iadd_table":
+            ops.append({"t": t, "xs": [rng.randint(0, 50) for _ in keys], "scalar": rng.random() < 0.3})   # t += table over the same keys
         elif t == "like_set":
             # a write into the result of zeros_like / ones_like (a fresh table with one shared value), then its contents; the
             # source table must not change
@@ -101,7 +107,7 @@ def cases(rng, tier):
         vals = rng.choice([0, 1, 2, 3, 4, 5, 2.5, 0.75]) if scalar else [rng.randint(lo, 99) for _ in keys]
         out.append({"keys": keys, "kdtype": dt, "qdtype": qdt, "mod": mod, "vals": vals,
                     "vdtype": rng.choice(["int64", "int64", "float64", "int32"]),
-                    "ops": _history(rng, keys, absent, rng.randint(1, 8), lo)})
+                    "ops": _history(rng, keys, absent, rng.randint(1, 8), lo, (int(np.iinfo(dt).min), int(np.iinfo(dt).max)))})
     return out
 
 
@@ -178,6 +184,21 @@ def run_impl(p):
                     return htgen.sort_pairs((kk, _num(v)) for kk, v in r.to_dict().items())
                 if k == "eq_self":
                     return bool(t == t)
+                if k == "hs_contains1":
+                    return bool(hs.contains(int(o["k"])))
+                if k == "iadd_num":
+                    t2 = t; t2 += o["x"]
+                    if t2 is not t:
+                        raise AssertionError("+= returned another object")
+                    return True
+                if k == "iadd_table":
+                    # (a table holding one shared value keeps it in the KEY dtype: it is added to another such table only)
+                    sc = o["scalar"] or not isinstance(p["vals"], list)
+                    other = HashTable(keys, o["xs"][0] if sc else np.array(o["xs"], dtype=p["vdtype"]), **kw)
+                    t2 = t; t2 += other
+                    if t2 is not t:
+                        raise AssertionError("+= returned another object")
+                    return htgen.sort_pairs((kk, _num(v)) for kk, v in other.to_dict().items())
                 if k == "like_set":
                     r = (np.zeros_like if o["like"] == "zeros" else np.ones_like)(t)
                     r[np.array(o["ks"], dtype=qd)] = o["x"]
@@ -257,6 +278,19 @@ def oracle(p):
             trace.append(htgen.sort_pairs((q, v + d2[q]) for q, v in d.items()))
         elif k == "eq_self":
             trace.append(True)
+        elif k == "hs_contains1":
+            trace.append(o["k"] in d)
+        elif k == "iadd_num":
+            for q in d:
+                d[q] = d[q] + o["x"]
+            trace.append(True)
+        elif k == "iadd_table":
+            sc = o["scalar"] or not isinstance(p["vals"], list)
+            xs = [o["xs"][0]] * len(p["keys"]) if sc else o["xs"]
+            xs = [float(x) if p["vdtype"] == "float64" and not sc else x for x in xs]
+            for q, x in zip(p["keys"], xs):
+                d[q] = d[q] + x
+            trace.append(htgen.sort_pairs(zip(p["keys"], xs)))
         elif k == "like_set":
             d2 = {q: (0 if o["like"] == "zeros" else 1) for q in d}
             for q in o["ks"]:
@@ -276,6 +310,8 @@ def lean_request(p):
     # HashSet(keys).contains is the `contains` of a table over the same keys (its values play no role)
     if isinstance(p["vals"], float):
         return None          # a non-integral shared value: the model's values are integers
+    if any(o["t"] in ("iadd_num", "iadd_table") for o in p["ops"]):
+        return None          # += changes the table and is not an operation of the Lean model (implementation vs oracle only)
     ops = [dict(o, t="contains") if o["t"] == "hs_contains" else o for o in p["ops"] if o["t"] in LEAN_OPS]
     return {"op": "HT.run", "keys": p["keys"], "vals": p["vals"], "mod": p["mod"], "ops": ops}
 
